@@ -119,6 +119,15 @@ CHECKS: dict[str, tuple[str, str, str, str, str]] = {
             "chunks, and exact reply frames at the device for voice-assistant sequences; unsubscribe at every position of a stream.",
             "runtime monitoring: callback trace vs one-callback-per-message / camera reassembly models, exhaustive small interleavings",
             "DESIGN.md §4 C17"),
+    "C19": ("S", "exploration",
+            "Multi-session histories on one APIClient (all histories up to length 3/4 over a 12-symbol alphabet + seeded random up to 30 steps: "
+            "start/finish/connect awaited or left pending against seven device/network behaviours, disconnect, force, cancel, device EOF/RST/"
+            "DisconnectRequest/garbage, every public API method). A class-boundary log of every start_connection / finish_connection / disconnect "
+            "invocation plus the connection stop-hook monitor is judged offline by a two-bit model (attempt in progress / session alive): refusal "
+            "only if attempt or alive, mandatory refusal while alive or an un-closed attempt is pending, API calls while not alive raise "
+            "APIConnectionError synchronously with zero send_messages calls and zero transport writes inside them.",
+            "runtime monitoring: class-boundary call log + stop-hook monitor vs two-bit executable model, exhaustive short histories",
+            "DESIGN.md §4 C19"),
     "C20": ("R", "exploration",
             "The real host_resolver / ZeroconfManager / APIClient.start_connection run on a simulated loop with logging doubles for mDNS and "
             "getaddrinfo; returned addresses (or the addresses handed to the connect step and the TCP attempts made), the exact lookup-call trace "
